@@ -63,6 +63,13 @@ const HEADER_SNIPPETS: &[&str] = &[
     "%grmtools{a, a, a: 1}",
 ];
 
+const UNI_DIGITS: &[char] = &['\u{663}', '\u{ff11}', '\u{b2}', '\u{bd}', '\u{96f}', '\u{1d7d8}', '\u{2167}'];
+const UNI_SPACES: &[char] = &['\u{a0}', '\u{2003}', '\u{3000}', '\u{85}', '\u{2028}', '\u{1680}'];
+const UNI_LETTERS: &[char] = &['é', '漢', 'ß', 'İ', '\u{1d4d0}', 'ǅ', 'ſ', 'K'];
+const UNI_ANY: &[char] = &[
+    'é', '漢', '\u{2028}', '♠', '\u{a0}', '\u{663}', '\u{ff11}', '\u{b2}', '\u{2003}', '\u{3000}', '\u{85}', '\u{301}', '\u{1f600}', '\u{1d7d8}', 'İ', '\u{feff}', '\u{200b}',
+];
+
 fn char_bounds(s: &str) -> Vec<usize> {
     (0..=s.len()).filter(|i| s.is_char_boundary(*i)).collect()
 }
@@ -70,7 +77,7 @@ fn char_bounds(s: &str) -> Vec<usize> {
 pub fn mutate_text(ch: &mut Choices, text: &mut String, other: &str) {
     let bs = char_bounds(text);
     let at = |ch: &mut Choices, bs: &Vec<usize>| bs[ch.pick(bs.len())];
-    match ch.pick(12) {
+    match ch.pick(14) {
         0 => {
             let p = at(ch, &bs);
             text.truncate(p);
@@ -120,7 +127,7 @@ pub fn mutate_text(ch: &mut Choices, text: &mut String, other: &str) {
         }
         5 => {
             let p = at(ch, &bs);
-            text.insert(p, *ch.choose(&['é', '漢', '\u{2028}', '♠', '\u{a0}']));
+            text.insert(p, *ch.choose(UNI_ANY));
         }
         6 => {
             *text = text.replacen("%%", "", 1);
@@ -145,6 +152,29 @@ pub fn mutate_text(ch: &mut Choices, text: &mut String, other: &str) {
         9 => {
             let p = at(ch, &bs);
             text.insert_str(p, *ch.choose(&["/*", "*/", "//", "\r", "\\", "<", ">", "->", "%prec", "%empty", "%left", "%token", "'", "\"", "{", "}", "%s", "%x", "<+", "::"]));
+        }
+        12 | 13 => {
+            // class-preserving substitution: an ASCII digit / blank / letter becomes a multi-byte
+            // character of the same Unicode class (is_numeric / is_whitespace / is_alphabetic)
+            let want = ch.pick(3);
+            let idxs: Vec<usize> = text
+                .char_indices()
+                .filter(|(_, c)| match want {
+                    0 => c.is_ascii_digit(),
+                    1 => *c == ' ' || *c == '\t',
+                    _ => c.is_ascii_alphabetic(),
+                })
+                .map(|(i, _)| i)
+                .collect();
+            if !idxs.is_empty() {
+                let i = idxs[ch.pick(idxs.len())];
+                let r = match want {
+                    0 => *ch.choose(UNI_DIGITS),
+                    1 => *ch.choose(UNI_SPACES),
+                    _ => *ch.choose(UNI_LETTERS),
+                };
+                text.replace_range(i..i + 1, r.encode_utf8(&mut [0u8; 4]));
+            }
         }
         10 => {
             // delete a line
@@ -246,7 +276,7 @@ impl Prop for C12 {
         v
     }
     fn rule(&self) -> String {
-        "Texts: 75 specifications extracted from the repository (every .y/.l, the grammar/lexer sections of cttests, %grmtools snippets of the header tests), own generated .y/.l renderings and header snippets, with 0-4 mutations (truncate at any char boundary, delete/duplicate a bracket-quote-brace, splice two files, 25-digit number, multi-byte character at any boundary, remove/insert %%, replace/prepend a %grmtools section, insert a keyword/comment opener, delete/duplicate a line); plus all unmutated files and every prefix of the header snippets. Each text goes through ASTWithValidityInfo::new (5 kinds) and ::from_str, YaccGrammar::new_with_storaget/from_str, ast().warnings(), LRNonStreamingLexerDef::from_str/new_with_options, GrmtoolsSectionParser::parse(required true/false). Oracle: returns within the watchdog, no panic, Ok or non-empty Err, is_valid <=> no errors, every error/warning span inside the text on char boundaries. Evaluation = one text through all entry points. Non-trivial: some parser got past the header into declarations/rules (an error located after the first line or a valid result); distinct by hash(text).".into()
+        "Texts: 75 specifications extracted from the repository (every .y/.l, the grammar/lexer sections of cttests, %grmtools snippets of the header tests), own generated .y/.l renderings and header snippets, with 0-4 mutations (truncate at any char boundary, delete/duplicate a bracket-quote-brace, splice two files, 25-digit number, multi-byte character (letters, Unicode digits and blanks, combining, 4-byte) at any boundary, an ASCII digit/blank/letter replaced by a multi-byte character of the same Unicode class, remove/insert %%, replace/prepend a %grmtools section, insert a keyword/comment opener, delete/duplicate a line); plus all unmutated files and every prefix of the header snippets. Each text goes through ASTWithValidityInfo::new (5 kinds) and ::from_str, YaccGrammar::new_with_storaget/from_str, ast().warnings(), LRNonStreamingLexerDef::from_str/new_with_options, GrmtoolsSectionParser::parse(required true/false). Oracle: returns within the watchdog, no panic, Ok or non-empty Err, is_valid <=> no errors, every error/warning span inside the text on char boundaries. Evaluation = one text through all entry points. Non-trivial: some parser got past the header into declarations/rules (an error located after the first line or a valid result); distinct by hash(text).".into()
     }
     fn assumptions(&self) -> Vec<String> {
         vec!["'promptly' = 5 s for inputs <= 8 KB (normal cost: microseconds), re-confirmed with 50 s in a fresh process".into()]
